@@ -240,6 +240,8 @@ def write_file(path, columns, row_groups, choices, rng, created_by=b"specwriter 
                 encodings.add(ch.get("dict_page_enc", 0))
             # pages: split entries at the chosen boundaries (in entries; v2 pages must start at a row boundary)
             bounds = ch.get("page_bounds") or []
+            if ch.get("page_bounds_rg") is not None:      # per row group (indices into THIS row group's entries)
+                bounds = ch["page_bounds_rg"][len(rg_structs)] if len(rg_structs) < len(ch["page_bounds_rg"]) else []
             bounds = sorted(set(b for b in bounds if 0 < b < len(entries)))
             pieces = [entries[a:b] for a, b in zip([0] + bounds, bounds + [len(entries)])]
             if not pieces:
